@@ -124,14 +124,15 @@ class Fault:
     frac: for partial writes, fraction (0..1) of the raw write that persists
     """
 
-    __slots__ = ("kind", "at", "frac", "fired", "where")
+    __slots__ = ("kind", "at", "frac", "fired", "where", "then")
 
-    def __init__(self, kind, at, frac=0.0):
+    def __init__(self, kind, at, frac=0.0, then=None):
         self.kind = kind
         self.at = at
         self.frac = frac
         self.fired = False
         self.where = None
+        self.then = then  # a second fault that becomes armed once this (non-fatal) one has fired
 
     def to_json(self):
         return {"kind": self.kind, "at": self.at, "frac": self.frac}
@@ -481,6 +482,8 @@ class World:
         f = proc.fault
         if faultable and f is not None and not f.fired and n >= f.at:
             dec = self._fire(proc, f, op, rel, nbytes, n)
+            if f.fired and f.then is not None and not proc.zombie:
+                proc.fault = f.then
         if mutating and self.tick_rng is not None and self.p_tick > 0:
             if self.tick_rng.random() < self.p_tick:
                 self.advance(1)
